@@ -1,6 +1,11 @@
-(* ===== Mat.v ===== *)
+(* ===== Mat.v : the build path of the materializer over exact rationals (C02, C03, C05, C06, C07, C10, C17, C18, C20) =====
+   factor pool evaluation, null discovery and the drop set, _get_scoped_terms with `spanned`,
+   _get_scoped_terms_spanned_by_evaled_factors, _simplify_scoped_terms, encoding (level discovery after row dropping,
+   full/reduced dummy naming), row-wise Kronecker product, per-term and final dict semantics, recorded structure.
+   No proofs in this file. *)
 From Coq Require Import List NArith ZArith QArith Qcanon Bool Arith.
 Import ListNotations.
+Require Scope.
 Open Scope N_scope.
 
 Definition str := list N.
@@ -18,7 +23,8 @@ Inductive fkind := FLit | FLookup.
 Record factor := { fx : str; fk : fkind }.
 Definition term := list factor.
 Definition cell := option Qc.                      (* None = NaN / null *)
-Inductive col := CNum (v : list cell) | CCat (v : list (option str)).
+(* a categorical column optionally carries the declared category list of a pandas `category` dtype *)
+Inductive col := CNum (v : list cell) | CCat (v : list (option str)) (declared : option (list str)).
 Definition frame := list (str * col).
 Inductive na := NaDrop | NaRaise | NaIgnore.
 Record cfg := { full_rank : bool; na_action : na; caller_drop : list nat }.
@@ -29,7 +35,7 @@ Definition bind {A B} (x : res A) (f : A -> res B) : res B := match x with inl a
 Notation "'do' x <- e ; k" := (bind e (fun x => k)) (at level 200, x ident, e at level 100, k at level 200).
 
 (* ---------- factor evaluation ---------- *)
-Inductive ev := EvConst (q : Qc) | EvNum (v : list cell) | EvCat (v : list (option str)).
+Inductive ev := EvConst (q : Qc) | EvNum (v : list cell) | EvCat (v : list (option str)) (declared : option (list str)).
 Fixpoint lookup (d : frame) (n : str) : option col :=
   match d with [] => None | (k, c) :: r => if leqb k n then Some c else lookup r n end.
 (* numeric literal "12", "2.5", ".5", "5." -> exact rational *)
@@ -47,23 +53,25 @@ Definition eval_factor (d : frame) (f : factor) : res ev :=
   | FLit => inl (EvConst (lit_val (fx f)))
   | FLookup => match lookup d (fx f) with
                | Some (CNum v) => inl (EvNum v)
-               | Some (CCat v) => inl (EvCat v)
+               | Some (CCat v dl) => inl (EvCat v dl)
                | None => inr EEval
                end
   end.
 Fixpoint null_positions {A} (v : list (option A)) (i : nat) : list nat :=
   match v with [] => [] | None :: r => i :: null_positions r (S i) | Some _ :: r => null_positions r (S i) end.
 Definition nulls_of (e : ev) : list nat :=
-  match e with EvConst _ => [] | EvNum v => null_positions v 0 | EvCat v => null_positions v 0 end.
+  match e with EvConst _ => [] | EvNum v => null_positions v 0 | EvCat v _ => null_positions v 0 end.
 
 Definition memn (i : nat) (l : list nat) := existsb (Nat.eqb i) l.
 Fixpoint keep_rows {A} (v : list A) (drop : list nat) (i : nat) : list A :=
   match v with [] => [] | x :: r => if memn i drop then keep_rows r drop (S i) else x :: keep_rows r drop (S i) end.
 
 (* ---------- scoped terms (rank reduction) ---------- *)
-Record sfac := { sf_expr : str; sf_red : bool }.
+Definition sfac := Scope.sfac.                       (* (factor expression, reduced) *)
+Definition sf_expr (f : sfac) : str := fst f.
+Definition sf_red (f : sfac) : bool := snd f.
 Record sterm := { st_f : list sfac; st_scale : Qc }.
-Definition sf_eqb (a b : sfac) := leqb (sf_expr a) (sf_expr b) && Bool.eqb (sf_red a) (sf_red b).
+Definition sf_eqb (a b : sfac) := Scope.sf_eqb a b.
 Definition mem_sf x (t : list sfac) := existsb (sf_eqb x) t.
 Definition st_eqb (a b : sterm) :=
   forallb (fun x => mem_sf x (st_f b)) (st_f a) && forallb (fun x => mem_sf x (st_f a)) (st_f b).
@@ -97,8 +105,8 @@ Fixpoint simplify (fuel : nat) (ts : list sterm) : list sterm :=
       fold_left (fun terms st =>
         match find_merge st terms with
         | Some (e, fnew) =>
-            let merged := mk_st (map (fun f => if sf_eqb f fnew then {| sf_expr := sf_expr f; sf_red := false |} else f) (st_f st))
-                                (st_scale e * st_scale st)%Qc in          (* as coded: product of both scales *)
+            let merged := mk_st (map (fun f => if sf_eqb f fnew then (sf_expr f, false) else f) (st_f st))
+                                (st_scale st) in                          (* scale=scoped_term.scale *)
             simplify fuel' (add_term (remove_term terms e) merged)
         | None => add_term terms st
         end) (sort_by_len ts) []
@@ -114,16 +122,20 @@ Definition spanned_by (evs : list (factor * ev)) : list sterm :=
   let scale := fold_left (fun s fe => match snd fe with EvConst q => (s * q)%Qc | _ => s end) evs (Q2Qc 1) in
   let opts := flat_map (fun fe => match snd fe with
                                   | EvConst _ => []
-                                  | EvCat _ => [[Some {| sf_expr := fx (fst fe); sf_red := true |}; None]]
-                                  | EvNum _ => [[Some {| sf_expr := fx (fst fe); sf_red := false |}]]
+                                  | EvCat _ _ => [[Some (fx (fst fe), true); None]]
+                                  | EvNum _ => [[Some (fx (fst fe), false)]]
                                   end) evs in
   let all := map (fun p => mk_st (somes p) scale) (prod_opts opts) in
   (* OrderedSet: de-duplicate *)
   fold_left add_term all [].
 
+Definition const_scale (evs : list (factor * ev)) : Qc :=
+  fold_left (fun s fe => match snd fe with EvConst q => (s * q)%Qc | _ => s end) evs (Q2Qc 1).
 Definition unreduced_term (evs : list (factor * ev)) : sterm :=
-  mk_st (flat_map (fun fe => match snd fe with EvConst _ => [] | _ => [{| sf_expr := fx (fst fe); sf_red := false |}] end) evs)
-        (Q2Qc 1).   (* as coded: `kind.value is Kind.CONSTANT` is never true, the scale stays 1 *)
+  mk_st (flat_map (fun fe => match snd fe with EvConst _ => [] | _ => [(fx (fst fe), false)] end) evs) (const_scale evs).
+(* a term with a literal 0 factor spans nothing *)
+Definition has_zero (evs : list (factor * ev)) : bool :=
+  existsb (fun fe => match snd fe with EvConst q => Qc_eq_bool q (Q2Qc 0) | _ => false end) evs.
 
 (* ---------- encoding and columns ---------- *)
 Definition column := list cell.
@@ -145,9 +157,9 @@ Definition encode (e : str) (v : ev) (reduced : bool) (drop : list nat) : list (
   match v with
   | EvConst _ => []
   | EvNum c => [(e, keep_rows c drop 0)]
-  | EvCat c =>
+  | EvCat c declared =>
       let kept := keep_rows c drop 0 in
-      let lvs := levels_of kept in
+      let lvs := match declared with Some l => l | None => levels_of kept end in
       if reduced then map (fun lv => (name_red e lv, indicator kept lv)) (tl lvs)
       else map (fun lv => (name_full e lv, indicator kept lv)) lvs
   end.
@@ -196,6 +208,7 @@ Definition build (d : frame) (nrows : nat) (c : cfg) (terms : list term) : res o
         match evf with
         | [] => (done ++ [[]], spanned)
         | _ =>
+          if has_zero evf then (done ++ [[]], spanned) else
           if full_rank c then
             let span := filter (fun s => negb (mem_st s spanned)) (spanned_by evf) in
             (done ++ [simplify (S (nred span)) span], spanned ++ span)
